@@ -1,6 +1,17 @@
+from .. import common as C
+
+
+def gen_trans_gecko():
+    # Lean definition of geckoPacketConn.randomPadLen TRANSLATED from the current source (Hy/Gen/TransGecko.lean;
+    # randIntn, which reads crypto/rand, is a function parameter); Props/C14.lean proves it equal to
+    # Gecko.randomPadLen / Gecko.padDrawBound for every configuration, chunk length and draw (randomPadLen_translation_eq)
+    C.gen_translate("Gecko", ["extras/obfs/gecko.go:geckoPacketConn.randomPadLen"], externs={"randIntn": "int:int"})
+
+
 CFG = {
     "props_module": "Hy.Props.C14",
     "gen_modules": ["extras"],
+    "gen_hooks": [gen_trans_gecko],
     "level": "proof",
     "streams": [
         # in-package test harness (package obfs) inside a testing/synctest bubble: virtual time, the real
